@@ -91,11 +91,6 @@ def rand_stream(kind, n):
         yield {"gen": kind, "k": k}
 
 
-def repeat(stream, times):
-    for _ in range(times):
-        yield from stream()
-
-
 def cases(tier, seed):
     if tier == "quick":
         # the smallest scope first (small witnesses are found first), then interleaved streams
@@ -579,7 +574,10 @@ def alltrees_slice(n, lo, hi):
         it, pos = tskit.all_trees(n), 0
     out = []
     while pos < hi:
-        t = next(it)
+        try:
+            t = next(it)
+        except StopIteration:  # enumeration shorter than expected: C15's business, not ours
+            break
         if pos >= lo:
             out.append(t)
         pos += 1
